@@ -233,6 +233,28 @@ func VH_C15_rule_triple() {
 	c15checkRules(rules, want)
 }
 
+// a call that fails after it has already produced output (second rule not serialisable) leaves nothing behind:
+// the next marshal calls, of rules and of flow descriptions, behave as on a fresh start
+func VH_C15_marshal_after_failure() {
+	good, _ := c15rule("g0", OperationCodeCreateNewQoSRule, [][]int{{0}})
+	bad := QoSRule{Identifier: vrt.U8("badid"), Operation: OperationCodeCreateNewQoSRule, PacketFilterList: PacketFilterList{{
+		Identifier: 1, Direction: PacketFilterDirectionBidirectional,
+		Components: PacketFilterComponentList{&PacketFilterFlowLabel{Label: 1<<20 + uint32(vrt.U16("excess"))}}}}}
+	failing := QoSRules{good, bad}
+	_, err := failing.MarshalBinary()
+	vrt.Assert(err != nil, "a flow label of 2^20 or more is not serialisable")
+	if vrt.Bool("thenRules") {
+		r, enc := c15rule("r0", QoSRuleOperationCode(vrt.Choose("op", 1, 6)), [][]int{{vrt.Choose("kind", 0, 17)}})
+		c15checkRules(QoSRules{r}, enc)
+		return
+	}
+	d, enc := c15desc("d0", QoSFlowOperationCode(vrt.Choose("dop", 1, 3)), []int{vrt.Choose("pkind", 0, 6)})
+	descs := QoSFlowDescs{d}
+	out, err := descs.MarshalBinary()
+	vrt.Assert(err == nil, "marshalling a well-formed flow description after a failed rule marshal succeeds")
+	vrt.Equal(out, enc, "flow descriptions serialise as on a fresh start after a failed rule marshal")
+}
+
 // all 18 component kinds in one filter; 15 filters in one rule
 func VH_C15_rule_large() {
 	if vrt.Bool("manyFilters") {
